@@ -5,6 +5,7 @@ use crate::adapt::*;
 use crate::engine::{boxed, cr, Ctx, EnumSub, Info, Sub};
 use crate::recipes::*;
 use num_traits::{One, Zero};
+use pairing_plus::bls12_381 as crt;
 use pairing_plus::bls12_381::Bls12;
 use pairing_plus::{CurveAffine, Engine};
 use proptest::prelude::*;
@@ -319,6 +320,70 @@ fn replay_kat(v: &Value) -> Result<(), String> {
     kat(v["kat"].as_u64().unwrap_or(0))
 }
 
+// ---- a long-lived thread: thousands of distinct arguments, then known pairs again ------------------------
+
+fn long_history_case(n: usize, side: u8, seed: u64) -> Result<(), String> {
+    use pairing_plus::CurveProjective;
+    let (a0, p0) = &G1m::pool().sub[seed as usize % POOL_SUB];
+    let (b0, q0) = &G2m::pool().sub[(seed / 5) as usize % POOL_SUB];
+    let res: Result<(), String> = std::thread::scope(|sc| {
+        sc.spawn(|| {
+            let g1 = aff_c::<G1m>(&G1m::gen());
+            let g2 = aff_c::<G2m>(&G2m::gen());
+            let pa = aff_c::<G1m>(p0);
+            let qa = aff_c::<G2m>(q0);
+            let mut t1 = proj_c::<G1m>(p0);
+            let mut t2 = proj_c::<G2m>(q0);
+            let mut kept: Vec<(usize, crt::G1Affine, crt::G2Affine)> = vec![];
+            for i in 0..n {
+                let (x1, x2) = if side == 0 { (pa, t2.into_affine()) } else { (t1.into_affine(), qa) };
+                let _ = cr("pairing", || Bls12::pairing(x1, x2))?;
+                if i < 12 || i + 12 >= n || i % std::cmp::max(1, n / 16) == 0 {
+                    kept.push((i, x1, x2));
+                }
+                if side == 0 {
+                    t2.add_assign_mixed(&g2);
+                } else {
+                    t1.add_assign_mixed(&g1);
+                }
+            }
+            // the kept pairs again, now against the definition: e = published^((a0 + i)(b0)) resp. ^(a0 (b0 + i))
+            for (i, x1, x2) in kept.iter().chain(kept.iter().rev()) {
+                let e = cr("pairing", || Bls12::pairing(*x1, *x2))?;
+                let (a, b) = if side == 0 { (a0.clone(), b0 + Z::from(*i as u64)) } else { (a0 + Z::from(*i as u64), b0.clone()) };
+                let want = published_e_g1_g2().pow(&((&a * &b) % r()));
+                if fq12_m(&e) != want {
+                    return Err(format!("after {} pairings with distinct {} arguments on one thread, the pairing of pair #{} evaluated again differs from e(g1,g2)^(ab)", n, if side == 0 { "G2" } else { "G1" }, i));
+                }
+            }
+            Ok(())
+        })
+        .join()
+        .map_err(|_| "harness: worker thread panicked".to_string())?
+    });
+    res
+}
+
+fn run_long(ctx: &Ctx, rec: &mut dyn FnMut(Value, Info)) -> Result<(), (String, Value)> {
+    let _ = (G1m::pool(), G2m::pool());
+    let n = if ctx.tier == crate::engine::Tier::Quick { 2_300 } else { 9_000 };
+    let seed = ctx.seed;
+    let res = crate::engine::par_map(ctx.threads, 2, |i| long_history_case(n, i as u8, seed));
+    for (i, r) in res.into_iter().enumerate() {
+        let case = json!({"n": n, "side": i, "seed": seed});
+        r.map_err(|m| (m, case.clone()))?;
+        let mut info = Info::default();
+        info.nt();
+        info.class(format!("distinct-{}-arguments:n={}", if i == 0 { "G2" } else { "G1" }, n));
+        rec(case, info);
+    }
+    Ok(())
+}
+
+fn replay_long(v: &Value) -> Result<(), String> {
+    long_history_case(v["n"].as_u64().unwrap_or(2300) as usize, v["side"].as_u64().unwrap_or(0) as u8, v["seed"].as_u64().unwrap_or(0))
+}
+
 pub fn def() -> PropDef {
     PropDef {
         id: "C03",
@@ -328,6 +393,7 @@ pub fn def() -> PropDef {
             Box::new(EnumSub { name: "published-value", rule: "e(g1,g2) equals the published value (enumerated: evaluated twice)", run: run_kat, replay: replay_kat, exhaustive: true }),
             Box::new(Sub { name: "textbook-reference", rule: "crate pairing == textbook ate pairing (model), e^r = 1", quick: 120, thorough: 3000, strategy: || boxed(pair_strategy()), check: check_reference }),
             Box::new(Sub { name: "call-histories", rule: "sequences of 2..6 pairing calls on one thread over a tiny point set closed under negation (same x, opposite y) and the beta-twist (same y, other x), each compared with the textbook pairing: the value must not depend on earlier calls", quick: 50, thorough: 1500, strategy: || boxed(hist_strategy()), check: check_history }),
+            Box::new(EnumSub { name: "long-history", rule: "one worker thread evaluates 2300 (quick) / 9000 (thorough) pairings with DISTINCT G2 (resp. G1) arguments Q_0 + i g2, then a sample of the earlier pairs again, forwards and backwards, each compared with published^(ab) (a bounded cache of prepared arguments that misbehaves once full)", run: run_long, replay: replay_long, exhaustive: false }),
             Box::new(Sub { name: "computed-operands", rule: "operands produced by the crate's own arithmetic on pool points with known discrete logs ([k]B by mul_assign / CurveAffine::mul with k incl. 0, r-1, r, r+1; B + (-B); B - B mixed; 2[k]B - [k]B - [k]B), passed as projective values or through into_affine: e == published^(ab), in particular exactly 1 when an operand is an identity reached by arithmetic", quick: 600, thorough: 20_000, strategy: || boxed(computed_strategy()), check: check_computed }),
             Box::new(Sub { name: "bilinearity", rule: "e([a]g1,[b]g2) == published^(ab); non-degeneracy; call direction", quick: 1_500, thorough: 40_000, strategy: || boxed(pair_strategy()), check: check_relations }),
         ],
